@@ -203,7 +203,7 @@ pub fn generate(seed: u64, idx: u64) -> Scenario {
         // clients that send the optional Content-Type header (before or after Content-Length)
         for st in s.steps.iter_mut() {
             if rng.chance(600) {
-                st.hdr = 1 + rng.below(2) as u8;
+                st.hdr = 1 + rng.below(3) as u8;
             }
         }
     }
